@@ -151,7 +151,7 @@ def netsem(I, op, param, args, dw):
 def add_net(I, net):
     """WF obligations + effect on the destination."""
     z3 = _z3()
-    from pyvc.engine import SSeq, term, Unsupported, Sym
+    from pyvc.engine import SSeq, SObj, term, Unsupported, Sym
     from contracts.core import wf_net
     f = net.fields
     op, param, args, dests = f['op'], f['op_param'], f['args'], f['dests']
@@ -160,6 +160,9 @@ def add_net(I, net):
     if not isinstance(op, str):
         raise Unsupported('net with a symbolic op')
     for w in tuple(args) + tuple(dests):
+        if not isinstance(w, SObj):
+            I.st.vc('call:add_net.arguments and destinations are wires', z3.BoolVal(False), kind='callpre')
+            raise Unsupported('net over a non-wire operand %r' % (w,))
         if w.fields.get('bitwidth') is None:
             I.st.vc('call:add_net.every wire of the net has a bitwidth', z3.BoolVal(False), kind='callpre')
             raise Unsupported('net over a wire without bitwidth')
@@ -195,6 +198,12 @@ def add_net(I, net):
     if not dests:
         return None
     d = dests[0]
+    if op == 'r':
+        # a register keeps showing its stored value (den); the net defines its NEXT value
+        if d.fields.get('_next') is not None:
+            I.st.vc('call:add_net.destination has no other driver', z3.BoolVal(False), kind='callpre')
+        d.fields['_next'] = Sym(trunc(I, den_of(args[0]), bw_of(d)))
+        return None
     if d.fields.get('_den') is not None:
         I.st.vc('call:add_net.destination has no other driver', z3.BoolVal(False), kind='callpre')
     full = netsem(I, op, param, [(den_of(w), bw_of(w)) for w in args], bw_of(d))
